@@ -60,6 +60,14 @@ type Config struct {
 	// LivelockSteps aborts the run when that many operations were executed without a
 	// single completed visible operation and without the clock advancing (0: off).
 	LivelockSteps int64
+	// Stalls (fault: slow or stalled task): at the start of a library task and before each
+	// of its operations the task may stop for one of StallDurs of simulated time, as a
+	// goroutine does that is descheduled, hit by a GC pause or running on a busy machine.
+	// At most MaxStalls per run; StallPer1024 is the probability at each point in generate
+	// mode. No stall decisions are drawn when StallDurs is empty.
+	StallDurs    []time.Duration
+	StallPer1024 int
+	MaxStalls    int
 }
 
 // Sim is one simulated execution.
@@ -74,6 +82,8 @@ type Sim struct {
 
 	step int64
 	seq  int64
+
+	stalls int
 
 	hist []Rec
 
@@ -250,6 +260,7 @@ func Run(cfg Config, ch *Choices, main func()) *Result {
 		raceBase:     raceErrors(),
 	}
 	cur = s
+	ch.stallPer1024 = cfg.StallPer1024
 
 	spawn(s, "env:main", false, main)
 
@@ -589,7 +600,38 @@ func taskBody(s *Sim, t *task, f func()) {
 
 	defer taskExit(s, t)
 
+	if t.lib {
+		s.maybeStall(t, "sim:stall-at-start")
+	}
+
 	f()
+}
+
+// maybeStall is a stall point of a library task (the baton holder).
+//
+//go:norace
+func (s *Sim) maybeStall(t *task, site string) {
+	if len(s.cfg.StallDurs) == 0 || s.stalls >= s.cfg.MaxStalls || s.aborted {
+		return
+	}
+
+	k := s.ch.choose(chStall, len(s.cfg.StallDurs)+1)
+	if k == 0 {
+		return
+	}
+
+	d := s.cfg.StallDurs[k-1]
+	if d <= 0 {
+		return
+	}
+
+	s.stalls++
+	s.record(Rec{Kind: KNote, Site: site, Note: "sim-stall", Val: int64(d)}, t)
+	s.mix(uint64(opSleep), uint64(d)^uint64(t.id)<<48)
+
+	s.blocked(t, site)
+	time.Sleep(d)
+	s.resume(t)
 }
 
 //go:norace
@@ -641,6 +683,10 @@ func enter(site string, kind uint64) (*Sim, *task) {
 	if s.cfg.LivelockSteps > 0 && s.step-s.progressStep > s.cfg.LivelockSteps {
 		s.livelock = true
 		s.abort(t, "livelock: "+site)
+	}
+
+	if t.lib {
+		s.maybeStall(t, "sim:stall")
 	}
 
 	if s.step >= s.nextWaitStep || s.ch.choose(chPreempt, 2) == 1 {
